@@ -1,0 +1,35 @@
+// Verification hooks: compiled only with `--cfg circular_buffer_verif`.
+//
+// Add-only accessors used by the external verification harness to observe the physical state of a
+// buffer (front position, length, storage) and to call the private index helpers. They do not
+// change the behaviour of any existing item.
+
+use crate::CircularBuffer;
+use core::mem::MaybeUninit;
+
+impl<const N: usize, T> CircularBuffer<N, T> {
+    /// Returns `(start, size, pointer to the first storage slot)`.
+    #[doc(hidden)]
+    pub fn verif_raw(&self) -> (usize, usize, *const MaybeUninit<T>) {
+        (self.start, self.size, self.items.as_ptr())
+    }
+
+    /// Returns a mutable pointer to the first storage slot (used to scribble over unoccupied
+    /// slots).
+    #[doc(hidden)]
+    pub fn verif_items_mut(&mut self) -> *mut MaybeUninit<T> {
+        self.items.as_mut_ptr()
+    }
+}
+
+/// Calls the private `add_mod` helper.
+#[doc(hidden)]
+pub fn verif_add_mod(x: usize, y: usize, m: usize) -> usize {
+    crate::add_mod(x, y, m)
+}
+
+/// Calls the private `sub_mod` helper.
+#[doc(hidden)]
+pub fn verif_sub_mod(x: usize, y: usize, m: usize) -> usize {
+    crate::sub_mod(x, y, m)
+}
